@@ -53,6 +53,10 @@ func (q Stmt) sql() string {
 		return fmt.Sprintf("DELETE FROM %s WHERE k = %d", t, q.A)
 	case "delge":
 		return fmt.Sprintf("DELETE FROM %s WHERE k >= %d", t, q.A)
+	case "delall":
+		return "DELETE FROM " + t
+	case "trunc":
+		return "TRUNCATE TABLE " + t
 	case "begin":
 		if q.A == 1 {
 			return "START TRANSACTION"
@@ -72,7 +76,7 @@ func (q Stmt) sql() string {
 
 func (q Stmt) isWrite() bool {
 	switch q.K {
-	case "ins", "updall", "updkey", "delkey", "delge":
+	case "ins", "updall", "updkey", "delkey", "delge", "delall", "trunc":
 		return true
 	}
 	return false
@@ -104,6 +108,10 @@ func (q Stmt) coq() string {
 		return fmt.Sprintf("QDelKey %s %s", t, coqZ(q.A))
 	case "delge":
 		return fmt.Sprintf("QDelGe %s %s", t, coqZ(q.A))
+	case "delall":
+		return "QDelAll " + t
+	case "trunc":
+		return "QTrunc " + t
 	case "begin":
 		return "QBegin"
 	case "commit":
@@ -145,6 +153,8 @@ func applyRef(q Stmt, d []KV) ([]KV, bool) {
 				out[i][1] = q.B
 			}
 		}
+	case "delall", "trunc":
+		out = out[:0]
 	case "delkey", "delge":
 		out = out[:0]
 		for _, x := range d {
@@ -172,7 +182,9 @@ func eqKVs(a, b []KV) bool {
 
 func genWrite(r *lib.RNG, s int) Stmt {
 	q := Stmt{S: s, T: r.Intn(nTables)}
-	switch r.Intn(8) {
+	switch r.Intn(9) {
+	case 8:
+		q.K = "delall"
 	case 0, 1, 2:
 		q.K = "ins"
 		n := 1
@@ -222,7 +234,7 @@ func gen(r *lib.RNG) caseT {
 		nb := r.Range(3, 8)
 		for i := 0; i < nb; i++ {
 			s := r.Range(1, ns)
-			switch r.Intn(6) {
+			switch r.Intn(7) {
 			case 0, 1:
 				c.H = append(c.H, genRW(r, s))
 			case 2:
@@ -230,13 +242,34 @@ func gen(r *lib.RNG) caseT {
 					c.H = append(c.H, Stmt{S: s, K: "bad"})
 					break
 				}
-				// an autocommit-off block
+				// an autocommit-off block; sometimes an explicit BEGIN inside it, with no COMMIT in between: the BEGIN
+				// commits the pending work and a later ROLLBACK must not discard it
 				c.H = append(c.H, Stmt{S: s, K: "setac", A: 0})
 				for j, n := 0, r.Range(0, 3); j < n; j++ {
 					c.H = append(c.H, genRW(r, s))
 				}
-				c.H = append(c.H, Stmt{S: s, K: lib.Pick(r, []string{"commit", "commit", "rollback"})})
+				if r.Chance(1, 2) {
+					c.H = append(c.H, genWrite(r, s))
+					c.H = append(c.H, Stmt{S: s, K: "begin", A: int64(r.Intn(2))})
+					for j, n := 0, r.Range(0, 2); j < n; j++ {
+						c.H = append(c.H, genRW(r, s))
+					}
+				}
+				c.H = append(c.H, Stmt{S: s, K: lib.Pick(r, []string{"commit", "rollback", "rollback"})})
 				c.H = append(c.H, Stmt{S: s, K: "setac", A: 1})
+			case 3:
+				// a transaction (or an autocommit statement) whose only write to the table is DELETE FROM t / TRUNCATE
+				t := r.Intn(nTables)
+				switch r.Intn(4) {
+				case 0:
+					c.H = append(c.H, Stmt{S: s, K: "delall", T: t})
+				case 1:
+					c.H = append(c.H, Stmt{S: s, K: "trunc", T: t})
+				case 2:
+					c.H = append(c.H, Stmt{S: s, K: "begin"}, Stmt{S: s, K: "delall", T: t}, Stmt{S: s, K: lib.Pick(r, []string{"commit", "commit", "rollback"})})
+				default:
+					c.H = append(c.H, Stmt{S: s, K: "begin"}, Stmt{S: s, K: "read", T: 1 - t}, Stmt{S: s, K: "trunc", T: t}, Stmt{S: s, K: "commit"})
+				}
 			default:
 				c.H = append(c.H, Stmt{S: s, K: "begin", A: int64(r.Intn(2))})
 				for j, n := 0, r.Range(0, 4); j < n; j++ {
@@ -268,8 +301,11 @@ func gen(r *lib.RNG) caseT {
 		case x < 90:
 			c.H = append(c.H, Stmt{S: s, K: "rollback"})
 			open[s] = false
-		case x < 96:
+		case x < 94:
 			c.H = append(c.H, Stmt{S: s, K: "setac", A: int64(r.Intn(2))})
+		case x < 96:
+			c.H = append(c.H, Stmt{S: s, K: "trunc", T: r.Intn(nTables)}, Stmt{S: s, K: "commit"})
+			open[s] = false
 		default:
 			c.H = append(c.H, Stmt{S: s, K: "bad"})
 		}
@@ -296,13 +332,37 @@ func (o obsT) coq() string {
 
 type sessRef struct {
 	ac, explicit bool
-	priv         map[int][]KV // private view of the open transaction, per touched table
-	written      map[int]bool
-	ambiguous    map[int]bool // another session's commit changed the table after this transaction first touched it
+	// private view of the open transaction, per touched table: the CANDIDATES still consistent with what the session has
+	// observed - each is some committed version of the table since the transaction began, plus the session's own changes
+	// (which committed version a transaction reads is not specified; that it is a committed one is)
+	priv      map[int][][]KV
+	written   map[int]bool
+	ambiguous map[int]bool     // another session's commit changed the table after this transaction first touched it
+	versions  map[int][][]KV   // committed versions of every table since this transaction began
+	started   bool
 }
 
 func (sr *sessRef) endTx() {
-	sr.priv, sr.written, sr.ambiguous = map[int][]KV{}, map[int]bool{}, map[int]bool{}
+	sr.priv, sr.written, sr.ambiguous = map[int][][]KV{}, map[int]bool{}, map[int]bool{}
+	sr.versions, sr.started = map[int][][]KV{}, false
+}
+
+func (sr *sessRef) start(committed [][]KV) {
+	if !sr.started {
+		sr.started = true
+		for t := range committed {
+			sr.versions[t] = [][]KV{cloneKVs(committed[t])}
+		}
+	}
+}
+
+func inCands(c [][]KV, d []KV) bool {
+	for _, x := range c {
+		if eqKVs(x, d) {
+			return true
+		}
+	}
+	return false
 }
 
 func run(c *lib.Ctx, cs caseT) {
@@ -384,7 +444,7 @@ func run(c *lib.Ctx, cs caseT) {
 		// classification by the specification: does this statement end a transaction by committing it?
 		commitPoint := false
 		switch q.K {
-		case "begin", "commit":
+		case "begin", "commit", "trunc":
 			commitPoint = true
 		case "setac":
 			commitPoint = !sr.explicit && q.A != 0
@@ -392,27 +452,44 @@ func run(c *lib.Ctx, cs caseT) {
 		default:
 			commitPoint = !inTx
 		}
+		sr.start(committed)
 		o := exec(q)
 		full, obs = append(full, q), append(obs, o)
 		// reference: the statement's own effect on the private view
 		if q.K == "read" || q.isWrite() {
 			if _, ok := sr.priv[q.T]; !ok {
-				sr.priv[q.T] = cloneKVs(committed[q.T])
+				for _, v := range sr.versions[q.T] {
+					sr.priv[q.T] = append(sr.priv[q.T], cloneKVs(v))
+				}
 			}
 			if !sr.ambiguous[q.T] {
+				var keep [][]KV
 				if q.K == "read" {
-					if o.Kind != "rows" || !eqKVs(o.Rows, sr.priv[q.T]) {
-						fail("read-differs-from-own-view", fmt.Sprintf("step %d session %d: %s returned %v, expected %v (committed state at first touch plus own changes)", i, q.S, q.sql(), o.Rows, sr.priv[q.T]))
+					for _, cand := range sr.priv[q.T] {
+						if o.Kind == "rows" && eqKVs(o.Rows, cand) {
+							keep = append(keep, cand)
+						}
+					}
+					if len(keep) == 0 {
+						fail("read-differs-from-own-view", fmt.Sprintf("step %d session %d: %s returned %v, expected one of %v (a committed state since the transaction began, plus own changes)", i, q.S, q.sql(), o.Rows, sr.priv[q.T]))
+						keep = sr.priv[q.T]
 					}
 				} else {
-					nd, okRef := applyRef(q, sr.priv[q.T])
-					if okRef != (o.Kind == "ok") {
-						fail("write-outcome-differs", fmt.Sprintf("step %d session %d: %s gave %s, reference success=%v on %v", i, q.S, q.sql(), o.Kind, okRef, sr.priv[q.T]))
+					for _, cand := range sr.priv[q.T] {
+						if nd, okRef := applyRef(q, cand); okRef == (o.Kind == "ok") {
+							keep = append(keep, nd)
+						}
 					}
-					sr.priv[q.T] = nd
+					if len(keep) == 0 {
+						fail("write-outcome-differs", fmt.Sprintf("step %d session %d: %s gave %s, impossible on any of %v", i, q.S, q.sql(), o.Kind, sr.priv[q.T]))
+						keep = sr.priv[q.T]
+					}
 				}
+				sr.priv[q.T] = keep
 			} else if q.isWrite() && o.Kind == "ok" {
-				sr.priv[q.T], _ = applyRef(q, sr.priv[q.T])
+				for ci := range sr.priv[q.T] {
+					sr.priv[q.T][ci], _ = applyRef(q, sr.priv[q.T][ci])
+				}
 			}
 			if q.isWrite() {
 				sr.written[q.T] = true
@@ -435,9 +512,11 @@ func run(c *lib.Ctx, cs caseT) {
 			switch {
 			case !commitPoint && changed:
 				fail("uncommitted-change-visible/"+q.K, fmt.Sprintf("step %d session %d: %s is not a commit point but the observer's t%d changed from %v to %v", i, q.S, q.sql(), t, before[t], after[t]))
-			case commitPoint && sr.written[t] && !sr.ambiguous[t] && !eqKVs(after[t], sr.priv[t]):
+			case commitPoint && sr.written[t] && !sr.ambiguous[t] && !inCands(sr.priv[t], after[t]):
 				fail("commit-not-published/"+q.K, fmt.Sprintf("step %d session %d: %s commits, t%d should be %v, observer sees %v", i, q.S, q.sql(), t, sr.priv[t], after[t]))
-			case commitPoint && !sr.written[t] && changed:
+			case commitPoint && !sr.written[t] && changed && cs.Serial:
+				// only demanded when transactions do not overlap (there it can never legitimately happen); with
+				// overlapping transactions the backend documents no isolation and a commit may republish a table it only read
 				fail("commit-changes-table-it-did-not-write/"+q.K, fmt.Sprintf("step %d session %d: %s commits a transaction that did not write t%d, yet the observer's t%d changed from %v to %v", i, q.S, q.sql(), t, t, before[t], after[t]))
 			}
 			if changed {
@@ -445,6 +524,9 @@ func run(c *lib.Ctx, cs caseT) {
 					if s2 != q.S {
 						if _, touched := r2.priv[t]; touched {
 							r2.ambiguous[t] = true
+						}
+						if r2.started {
+							r2.versions[t] = append(r2.versions[t], cloneKVs(after[t]))
 						}
 					}
 				}
@@ -456,6 +538,7 @@ func run(c *lib.Ctx, cs caseT) {
 		case "begin":
 			sr.endTx()
 			sr.explicit = true
+			sr.start(committed)
 		case "commit", "rollback":
 			sr.endTx()
 			sr.explicit = false
@@ -540,7 +623,8 @@ func main() {
 			{Init: [][]KV{{{1, 10}, {2, 20}}, {}}, Serial: true, H: []Stmt{
 				{S: 1, K: "begin"}, {S: 1, K: "ins", T: 0, KVs: []KV{{3, 30}}}, {S: 1, K: "read", T: 0}, {S: 1, K: "rollback"}, {S: 1, K: "read", T: 0},
 				{S: 2, K: "begin"}, {S: 2, K: "updall", T: 0, A: 5}, {S: 2, K: "ins", T: 1, KVs: []KV{{1, 1}}}, {S: 2, K: "commit"}, {S: 1, K: "read", T: 0}}},
-			// known finding: a transaction that only READ t0 overwrites another session's committed insert when it commits
+			// overlapping transactions (outside the property's final-state quantifier, compared with the model only):
+			// a transaction that only READ t0 republishes its snapshot when it commits
 			{Init: [][]KV{{{1, 10}, {2, 20}}, {}}, H: []Stmt{
 				{S: 1, K: "begin"}, {S: 1, K: "read", T: 0}, {S: 2, K: "ins", T: 0, KVs: []KV{{4, 40}}}, {S: 1, K: "commit"}, {S: 2, K: "read", T: 0}}},
 			// same through the implicit commit of BEGIN and through SET autocommit = 1
@@ -548,6 +632,18 @@ func main() {
 				{S: 1, K: "begin"}, {S: 1, K: "read", T: 0}, {S: 2, K: "delkey", T: 0, A: 1}, {S: 1, K: "begin"}, {S: 1, K: "rollback"}}},
 			{Init: [][]KV{{{1, 10}}, {}}, H: []Stmt{
 				{S: 1, K: "setac", A: 0}, {S: 1, K: "read", T: 0}, {S: 2, K: "updall", T: 0, A: 1}, {S: 1, K: "setac", A: 1}}},
+			// autocommit off, a write, then an explicit BEGIN with no COMMIT in between: BEGIN commits the pending work and
+			// the later ROLLBACK must not discard it
+			{Init: [][]KV{{{1, 10}}, {}}, Serial: true, H: []Stmt{
+				{S: 1, K: "setac", A: 0}, {S: 1, K: "ins", T: 0, KVs: []KV{{6, 60}}}, {S: 1, K: "begin", A: 1}, {S: 1, K: "ins", T: 0, KVs: []KV{{7, 70}}},
+				{S: 1, K: "rollback"}, {S: 1, K: "read", T: 0}, {S: 1, K: "setac", A: 1}, {S: 2, K: "read", T: 0}}},
+			// a transaction whose only write is an unfiltered DELETE (planned as a truncate) / TRUNCATE: must become visible
+			{Init: [][]KV{{{1, 10}, {2, 20}}, {{1, 1}}}, Serial: true, H: []Stmt{
+				{S: 1, K: "begin"}, {S: 1, K: "delall", T: 0}, {S: 1, K: "read", T: 0}, {S: 1, K: "commit"}, {S: 2, K: "read", T: 0},
+				{S: 2, K: "delall", T: 1}, {S: 1, K: "read", T: 1}, {S: 1, K: "ins", T: 0, KVs: []KV{{3, 30}}},
+				{S: 1, K: "begin"}, {S: 1, K: "delall", T: 0}, {S: 1, K: "rollback"}, {S: 2, K: "read", T: 0},
+				{S: 2, K: "trunc", T: 0}, {S: 1, K: "read", T: 0}, {S: 1, K: "ins", T: 1, KVs: []KV{{4, 4}}},
+				{S: 1, K: "begin"}, {S: 1, K: "trunc", T: 1}, {S: 1, K: "commit"}, {S: 2, K: "read", T: 1}}},
 			// autocommit off; failed statements; error inside a transaction
 			{Init: [][]KV{{{1, 10}}, {{1, 1}}}, Serial: true, H: []Stmt{
 				{S: 1, K: "setac", A: 0}, {S: 1, K: "ins", T: 0, KVs: []KV{{5, 50}}}, {S: 1, K: "setac", A: 1},
